@@ -27,6 +27,19 @@ def cfg(M, N, avals, yvals, catalogue, invariants, emit=False, shard=None):
     return "\n".join(lines) + "\n"
 
 
+_PROVIDERS: dict = {}
+
+
+def _provider(name: str):
+    if name not in _PROVIDERS:
+        from glotaran.optimization import estimation_provider as ep
+
+        class G:
+            residual_function = name
+        _PROVIDERS[name] = ep.EstimationProvider(G())
+    return _PROVIDERS[name]
+
+
 def compare(chk: Check, case, where: str):
     import numpy as np
     from glotaran.optimization.nnls import residual_nnls
@@ -36,12 +49,21 @@ def compare(chk: Check, case, where: str):
     y = np.array(case["y"], dtype=float)
     n = A.shape[1]
     desc = f"A={case['A']} y={case['y']}"
-    for fname, fn, sol, res in (("variable_projection", residual_variable_projection, case["vp"], case["vpres"]),
-                                ("non_negative_least_squares", residual_nnls, case["nnls"], case["nnlsres"])):
+    variants = [("variable_projection", residual_variable_projection, case["vp"], case["vpres"]),
+                ("non_negative_least_squares", residual_nnls, case["nnls"], case["nnlsres"])]
+    if "scales" not in case and not case.get("colscale"):
+        # the entry point the fit uses: EstimationProvider.calculate_residual of a group with that residual function
+        variants += [("variable_projection via EstimationProvider", _provider("variable_projection").calculate_residual, case["vp"], case["vpres"]),
+                     ("non_negative_least_squares via EstimationProvider", _provider("non_negative_least_squares").calculate_residual, case["nnls"], case["nnlsres"])]
+    for fname, fn, sol, res in variants:
         den = sol["den"]
         exp_clp = [Fraction(v, den) for v in sol["num"]]
         exp_res = [Fraction(v, den) for v in res]
-        for order in ("C", "F"):
+        # the instances are integer valued: they are also passed as integer-typed arrays (detector counts are stored that way)
+        dtypes = [("float64", "float64")]
+        if "scales" not in case and not case.get("colscale"):
+            dtypes += [("float64", "int64"), ("int32", "int32")]
+        for order, (mdt, ydt) in [(o, d) for o in ("C", "F") for d in dtypes]:
             for k in case.get("scales", [0]):
                 sc = 2.0 ** k
                 # column scale lemma: A*diag(2^e) has the minimiser clp_j / 2^e_j and the same residual (exact in binary floating point; a
@@ -49,8 +71,9 @@ def compare(chk: Check, case, where: str):
                 ce = case.get("colscale")
                 D = np.array([2.0 ** e for e in ce]) if ce else np.ones(n)
                 As = A * D
-                Ain = np.array(As, order=order, copy=True)
-                yin = y * sc
+                Ain = np.array(As, order=order, copy=True).astype(mdt)
+                As = As.astype(mdt)
+                yin = (y * sc).astype(ydt)
                 ycall = yin.copy()
                 clp, r = fn(Ain, ycall)
                 chk.evaluations += 1
@@ -79,6 +102,8 @@ def compare(chk: Check, case, where: str):
                         bad = f"residual {r.tolist()} != data - matrix*clp = {[str(e) for e in exp_res]} (diff {dr:.3g})"
                 if bad:
                     key = f"LeastSquares[{fname}]: scale=2^{k}" if k != 0 else f"LeastSquares[{fname}]: {desc} order={order}"
+                    if (mdt, ydt) != ("float64", "float64"):
+                        key = f"LeastSquares[{fname}]: matrix dtype {mdt}, data dtype {ydt}: {desc} order={order}"
                     if ce:
                         key = f"LeastSquares[{fname}]: column scales 2^{ce} {desc} order={order}"
                     chk.violation(key, f"{where} {fname} order={order} data*2^{k} columns*2^{ce}: {bad}; {desc}",
@@ -137,7 +162,7 @@ def run(tier: str, replay=None) -> int:
     inv_small = ["Orthogonal", "NNLSCertificate", "NNLSMinimal", "VPMinimal", "ResidualIdentity"]
     inv_big = ["Orthogonal", "NNLSCertificate", "ResidualIdentity"]
     if tier == "quick":
-        plans = [(3, 1, "= {0,1,2}", "= {0,1,2}", "NoCatalogue", inv_small),
+        plans = [(3, 1, "= {0,1,2}", "<- NegVals", "NoCatalogue", inv_small),      # one column, data of either sign: NNLS must clip AND report the clipped residual
                  (3, 2, "= {0,1,2}", "= {0,1,2}", "NoCatalogue", inv_small),
                  (4, 2, "= {0}", "<- NegVals", "KineticCatalogue", inv_big),
                  (4, 3, "= {0}", "= {0,1,2}", "KineticCatalogue", inv_big)]
